@@ -530,9 +530,21 @@ struct Runner
     shared_ptr<Vox> G = make_vox(c, 7.F); // pre-filled: compute_gradient must overwrite
     R.p->compute_gradient(*G, *X);
     const std::vector<double> gi = get_flat(*G);
-    for (int j = 0; j < N && ok; ++j)
-      if (!(std::fabs(gi[j] - gref[j]) <= 64 * EPSF * gabs[j] + tiny))
-        ok = viol("gradient_vs_reference", im, "gradient at " + vox(g, j) + " = " + vmc::str(gi[j]) + " reference derivative of the documented value = " + vmc::str(gref[j]));
+    // PLS: voxels on a face of the image and voxels strictly inside are reported under different keys (the first failing voxel of
+    // each kind), so that a border defect cannot mask an interior one
+    auto on_face = [&](int j) { int z, y, xx; g.coords(j, z, y, xx); return z == 0 || z == g.nz - 1 || y == 0 || y == g.ny - 1 || xx == 0 || xx == g.nx - 1; };
+    {
+      bool rep_border = false, rep_interior = false;
+      for (int j = 0; j < N && (pls ? !(rep_border && rep_interior) : ok); ++j)
+        if (!(std::fabs(gi[j] - gref[j]) <= 64 * EPSF * gabs[j] + tiny))
+          {
+            const bool face = on_face(j);
+            if (pls && (face ? rep_border : rep_interior)) continue;
+            (face ? rep_border : rep_interior) = true;
+            ok = viol(std::string("gradient_vs_reference") + (pls ? (face ? ";where=border" : ";where=interior") : ""), im,
+                      "gradient at " + vox(g, j) + " = " + vmc::str(gi[j]) + " reference derivative of the documented value = " + vmc::str(gref[j]));
+          }
+    }
     if (im.dev.empty())
       {
         ctx.count("uniform_images");
@@ -540,15 +552,19 @@ struct Runner
       }
     // ---------------- gradient vs finite differences of STIR's own value
     {
-      std::vector<std::vector<double>> dirs; std::vector<std::string> dname;
+      std::vector<std::vector<double>> dirs; std::vector<std::string> dname; std::vector<int> dkind; // 0 interior unit vector, 1 border unit vector, 2 labelled
       auto unit = [&](int j) { std::vector<double> d(N, 0.0); d[j] = 1; return d; };
-      if (plan.fd_all) for (int j = 0; j < N; ++j) { dirs.push_back(unit(j)); dname.push_back("e" + vox(g, j)); }
-      else for (auto& d : im.dev) { dirs.push_back(unit(d.first)); dname.push_back("e" + vox(g, d.first)); }
-      if (plan.labelled_dir || dirs.empty()) { std::vector<double> L(N); for (int j = 0; j < N; ++j) L[j] = dir_label(j); dirs.push_back(L); dname.push_back("labelled"); }
+      if (plan.fd_all) for (int j = 0; j < N; ++j) { dirs.push_back(unit(j)); dname.push_back("e" + vox(g, j)); dkind.push_back(on_face(j) ? 1 : 0); }
+      else for (auto& d : im.dev) { dirs.push_back(unit(d.first)); dname.push_back("e" + vox(g, d.first)); dkind.push_back(on_face(d.first) ? 1 : 0); }
+      if (plan.labelled_dir || dirs.empty()) { std::vector<double> L(N); for (int j = 0; j < N; ++j) L[j] = (pls && on_face(j)) ? 0.0 : dir_label(j); // PLS: interior voxels only (border voxels have their own key)
+          bool any = false; for (double v : L) any |= (v != 0);
+          if (any) { dirs.push_back(L); dname.push_back(pls ? "labelled(interior voxels)" : "labelled"); dkind.push_back(2); } }
+      bool rep_kind[3] = { false, false, false };
       shared_ptr<Vox> Y = make_vox(c);
       bool ok_fd = true; // evaluated even if the comparison with the reference failed: it is the reference-free arbiter
-      for (size_t di = 0; di < dirs.size() && ok_fd; ++di)
+      for (size_t di = 0; di < dirs.size() && (pls || ok_fd); ++di)
         {
+          if (pls && rep_kind[dkind[di]]) continue;
           const auto& d = dirs[di];
           double vals[4]; const double steps[4] = { 2, 1, -1, -2 };
           std::vector<double> y(N);
@@ -558,8 +574,8 @@ struct Runner
           double nz, kink; ref.fd_aux(x, d, nz, kink);
           const double tol = 1e-3 * dab + 64 * EPSF * nz * 1.5 / H_FD + kink * H_FD * H_FD + tiny;
           ctx.count("fd_gradient_checks");
-          if (!(std::fabs(fd - dd) <= tol))
-            ok = ok_fd = viol("gradient_vs_fd_of_value", im, "direction " + dname[di] + ": <compute_gradient,d>=" + vmc::str(dd) + " but 4th-order central difference of compute_value=" + vmc::str(fd) + " (tolerance " + vmc::str(tol) + ")");
+          if (!(std::fabs(fd - dd) <= tol) && (rep_kind[dkind[di]] = true))
+            ok = ok_fd = viol(std::string("gradient_vs_fd_of_value") + (pls ? (dkind[di] == 1 ? ";where=border" : dkind[di] == 0 ? ";where=interior" : ";where=labelled_direction") : ""), im, "direction " + dname[di] + ": <compute_gradient,d>=" + vmc::str(dd) + " but 4th-order central difference of compute_value=" + vmc::str(fd) + " (tolerance " + vmc::str(tol) + ")");
         }
     }
     // ---------------- linear in the penalisation factor, zero factor
